@@ -13,6 +13,9 @@ corrupt/<attr>/<operator>/<nlri> : a well-formed UPDATE (ORIGIN, AS_PATH, NEXT_H
     withdrawn (API structure and Adj-RIB-In), or - for the attribute-discard class only - that attribute absent and
     everything else as in the uncorrupted decode.  Never an announced route with a missing/misparsed attribute,
     never a shorter attribute accepted for an overrunning length.
+history/<attr>/<operator> : the same corrupted UPDATE, judged on its SECOND arrival on a session which decoded a well-formed UPDATE
+    (no MP attributes: the one kind the attribute cache keeps) and then this UPDATE once already - the decoder's memory of the
+    last attribute block must not turn the malformed block into the attributes of the earlier message.
 """
 from __future__ import annotations
 
@@ -36,7 +39,7 @@ ASSUMPTIONS = C2.ASSUMPTIONS + [
 ]
 BOUNDS = {'quick': {'attrs': '14 attribute types x up to 7 operators x {ipv4 NLRI, MP_REACH ipv6}', 'value bytes': '<= 12 symbolic per corrupted attribute'},
           'thorough': {'attrs': 'same + 2-byte-AS session + ADD-PATH session', 'value bytes': '<= 24'}}
-OUTSIDE = ['attribute types whose decoders are only reachable with other families (BGP-LS, SR, tunnel-encap, PMSI, AIGP): their crash-freedom is C03, their round trip C15',
+OUTSIDE = ['histories longer than (well-formed UPDATE, the malformed UPDATE, the malformed UPDATE again)', 'attribute types whose decoders are only reachable with other families (BGP-LS, SR, tunnel-encap, PMSI, AIGP): their crash-freedom is C03, their round trip C15',
            'two simultaneous corruptions']
 
 DISCARD_CLASS = (O.ATOMIC_AGGREGATE, O.AGGREGATOR, O.AS4_AGGREGATOR, O.AS4_PATH)
@@ -129,7 +132,7 @@ def build(ctx, target, op, nlri_mode):
     return body, code
 
 
-def h_corrupt(ctx, target, op, nlri_mode, sess='asn4'):
+def h_corrupt(ctx, target, op, nlri_mode, sess='asn4', history=False):
     neg = S.session('in', **C2.SESSIONS[sess])
     r = build(ctx, target, op, nlri_mode)
     if r is None:
@@ -147,7 +150,22 @@ def h_corrupt(ctx, target, op, nlri_mode, sess='asn4'):
         ctx.assume(False, 'the oracle classifies the corrupted message as malformed')
     ctx.cover('malformed')
     ctx.note('class', malformed.what)
-    name = '%s:%s:%s' % (target, op, nlri_mode)
+    name = '%s:%s:%s' % (target, op, nlri_mode) + (':after-history' if history else '')
+    if history:
+        # what the session decoded BEFORE must not matter (the decoder keeps the last attribute block it parsed): a well-formed
+        # UPDATE without MP attributes, then this very malformed UPDATE once already; the outcome checked below is that of its
+        # SECOND arrival (a peer which sends the same bad attribute block with several batches of prefixes)
+        good = K.body([], [K.attr(ctx, 'h.origin', 0x40, 1, [0], ext=False), K.attr(ctx, 'h.aspath', 0x40, 2, [2, 1, 0, 0, 0xFD, 0xE8], ext=False),
+                           K.attr(ctx, 'h.nh', 0x40, 3, [192, 0, 2, 9], ext=False), K.attr(ctx, 'h.med', 0x80, 4, [0, 0, 0, 100], ext=False)], [[24, 10, 9, 9]])
+        for earlier in (K.mk(ctx, good), data):
+            try:
+                m0 = Message.unpack(2, earlier, neg)
+                if isinstance(m0, Update):
+                    m0.data
+            except Notify:
+                ctx.cover('session-reset')
+                return ('reset-before',)
+        ctx.cover('second-arrival')
     # ---- what ExaBGP does
     try:
         msg = Message.unpack(2, data, neg)
@@ -268,6 +286,16 @@ def units(tier):
                     continue
                 us.append(Unit('corrupt/%s/%s/%s' % (t, op, nm), lambda ctx, t=t, op=op, nm=nm: h_corrupt(ctx, t, op, nm),
                                must_cover=('malformed',) if not (t in ('as4-aggregator',) and False) else (), hash_const=True, reset=C2.reset_state, weight=5, max_seconds=300))
+    # the same corruptions arriving a second time on a session which decoded a well-formed UPDATE first (state that outlives a message)
+    for t in TARGETS:
+        for op in OPERATORS:
+            if (TARGETS[t][2] == 0 and op in ('short', 'empty', 'value')) or (op == 'value' and t not in ('origin', 'as-path', 'as4-path')) \
+                    or (op == 'empty' and t in ('as-path', 'as4-path')):
+                continue
+            if tier != 'thorough' and op in ('flags', 'overrun') and t not in ('origin', 'med', 'community'):
+                continue
+            us.append(Unit('history/%s/%s' % (t, op), lambda ctx, t=t, op=op: h_corrupt(ctx, t, op, 'ip', history=True),
+                           must_cover=('malformed',), hash_const=True, reset=C2.reset_state, weight=5, max_seconds=300))
     # MP_REACH_NLRI after the malformed attribute (the order senders which sort by type code produce)
     for t in TARGETS:
         if TARGETS[t][2] == 0 or t in ('as-path', 'as4-path', 'next-hop') or TARGETS[t][1] > 14:
